@@ -38,6 +38,8 @@ pub(crate) struct Node {
     pub max_outbound: u32,
     pub(crate) inner: Option<Inner>,
     pub bans: Vec<(u64, String)>,
+    /// a peer that has left delivers nothing (opt-in: other harnesses deliver from unknown peers on purpose)
+    pub drop_unconnected: bool,
     pub server_errors: Vec<String>,
     pub exchanges: u64,
     pub requests: BTreeMap<String, u64>,
@@ -85,6 +87,7 @@ impl Node {
             max_outbound,
             inner: None,
             bans: Vec::new(),
+            drop_unconnected: false,
             server_errors: Vec::new(),
             exchanges: 0,
             requests: BTreeMap::new(),
@@ -104,6 +107,7 @@ impl Node {
             max_outbound,
             inner: None,
             bans: Vec::new(),
+            drop_unconnected: false,
             server_errors: Vec::new(),
             exchanges: 0,
             requests: BTreeMap::new(),
@@ -181,6 +185,9 @@ impl Node {
     }
 
     pub fn deliver(&mut self, peer: PeerIndex, protocol: ProtocolId, data: Bytes) {
+        if self.drop_unconnected && self.i().peers.get_peer(&peer).is_none() {
+            return;
+        }
         self.exchanges += 1;
         if std::env::var("VERIF_DEBUG_NODE").is_ok() {
             eprintln!("    deliver: {}", request_name(protocol, &data));
